@@ -133,7 +133,8 @@ class ReplayCrate:
         deps += self.extra_deps
         with open(os.path.join(self.dir, "Cargo.toml"), "w") as f:
             f.write('[package]\nname = "replay"\nversion = "0.0.0"\nedition = "2021"\n\n[dependencies]\n%s\n[workspace]\n' % deps)
-        shutil.copy(os.path.join(common.REPO, "Cargo.lock"), os.path.join(self.dir, "Cargo.lock"))
+        if os.path.exists(os.path.join(common.REPO, "Cargo.lock")):
+            shutil.copy(os.path.join(common.REPO, "Cargo.lock"), os.path.join(self.dir, "Cargo.lock"))
         os.makedirs(os.path.join(self.dir, "src"), exist_ok=True)
         show_amt = 'format!("{:016x}", a.to_bits())' if self.backend == "f64" else 'format!("{}", a)'
         src = "#![allow(unused, non_snake_case, clippy::all)]\nuse quantities::prelude::*;\nuse quantities::{Converter, ConversionTable};\n"
